@@ -77,7 +77,8 @@ fn pick<T: Copy>(r: &mut SmallRng, xs: &[T]) -> T {
 impl Env {
     fn rand_inc(&mut self) -> u16 {
         if self.opts.bigincs && self.rng.random_range(0..10) == 0 {
-            pick(&mut self.rng, &[65533u16, 65534, 65535])
+            // the top of the range and the sign-bit / byte boundaries in the middle of it
+            pick(&mut self.rng, &[65533u16, 65534, 65535, 65535, 32767, 32768, 255, 256])
         } else {
             pick(&mut self.rng, &[0u16, 0, 0, 1, 1, 2, 3])
         }
